@@ -683,6 +683,9 @@ def check_case(case, ctx):
         ntab = compare_results(A.results, B.results, info)
     finally:
         os.chdir(sd)
+        if ctx.tier == "replay":          # the driver removes worker directories, not the one of a --replay process
+            os.chdir(lib.BUILD)
+            shutil.rmtree(sd, ignore_errors=True)
     for e in info["events"]:
         ctx.event(e)
     for k, v in case["meta"].get("excluded", {}).items():
